@@ -96,6 +96,8 @@ func New[T any](
 		tree.locker = &sync.RWMutex{}
 	}
 
+	tree.buildMethods(0) // OPTIONS * 的 Allow 报头，包括可能的 TRACE。
+
 	return tree
 }
 
